@@ -36,7 +36,7 @@ pub struct Hist {
 }
 
 fn apply_tamper(root: &std::path::Path, path: &str, kind: &TamperKind, at: u32) -> bool {
-    let p = root.join(path);
+    let p = root.join(crate::tree::osp(path));
     if *kind == TamperKind::Remove {
         return std::fs::remove_file(&p).is_ok();
     }
@@ -139,13 +139,13 @@ pub fn exec(case: &Case, ctx: &mut Ctx, rec: &mut Case) -> Hist {
                 }
             }
             Op::Write { path, data } => {
-                let p = env.root.join(path);
+                let p = env.root.join(crate::tree::osp(path));
                 if p.parent().map(|d| d.is_dir()).unwrap_or(false) && !p.is_dir() {
                     let _ = std::fs::write(&p, &data.0);
                 }
             }
             Op::Remove { path } => {
-                let _ = std::fs::remove_file(env.root.join(path));
+                let _ = std::fs::remove_file(env.root.join(crate::tree::osp(path)));
             }
             Op::Tamper { path, kind, at } => {
                 if apply_tamper(&env.root, path, kind, *at) {
@@ -154,7 +154,7 @@ pub fn exec(case: &Case, ctx: &mut Ctx, rec: &mut Case) -> Hist {
                 }
             }
             Op::Plant { entry } => {
-                let p = env.root.join(entry.path());
+                let p = env.root.join(crate::tree::osp(entry.path()));
                 if p.is_dir() && !p.is_symlink() {
                     let _ = std::fs::remove_dir_all(&p);
                 } else {
